@@ -126,6 +126,12 @@ func c08kd(use string, kinds ...string) c08KD {
 var c08Layouts = []c08NamedLayout{
 	{"enc", []c08KD{c08kd("encryption", "key:rsa1")}},
 	{"nouse", []c08KD{c08kd("", "key:rsa1")}},
+	// the addressee's key under certificates with extensions that say what the *certificate* is for (signing only; a self-signed CA
+	// certificate, which is what openssl req -x509 makes): the SP advertises the key for encryption all the same
+	{"enc-sigonly-cert", []c08KD{c08kd("encryption", "key:rsa1sig")}},
+	{"nouse-sigonly-cert", []c08KD{c08kd("", "key:rsa1sig")}},
+	{"enc-ca-cert", []c08KD{c08kd("encryption", "key:rsa1ca")}},
+	{"nouse-ca-cert", []c08KD{c08kd("", "key:rsa1ca")}},
 	{"signing-only", []c08KD{c08kd("signing", "key:rsa1")}},
 	{"none", nil},
 	{"signing-then-enc", []c08KD{c08kd("signing", "key:rsa3"), c08kd("encryption", "key:rsa1")}},
@@ -289,6 +295,11 @@ func c08CertText(kind string) string {
 }
 
 func c08KeyByName(name string) (KeyPair, bool) {
+	for _, k := range []KeyPair{rsa1Sig, rsa1CA} {
+		if k.Name == name {
+			return k, true
+		}
+	}
 	for _, k := range rsaKeys {
 		if k.Name == name {
 			return k, true
@@ -306,6 +317,10 @@ func c08KindClass(kind string) string {
 	switch {
 	case strings.HasPrefix(kind, "key:ec"):
 		return "ec"
+	case kind == "key:rsa1sig":
+		return "valid-sigonly"
+	case kind == "key:rsa1ca":
+		return "valid-ca"
 	case strings.HasPrefix(kind, "key:"):
 		return "valid"
 	case strings.HasPrefix(kind, "wrapped:"):
